@@ -40,9 +40,9 @@ AbortReason()       # expand the enumeration table
 external("bacpypes.comm:Client.request", "to_net")
 external("bacpypes.comm:ServiceAccessPoint.sap_request", "to_app")
 external("bacpypes.comm:ServiceAccessPoint.sap_response", "to_app")
-external("bacpypes.app:DeviceInfoCache.acquire", "cache")
-external("bacpypes.app:DeviceInfoCache.release", "cache")
-external("bacpypes.app:DeviceInfoCache.update_device_info", "cache")
+external("bacpypes.app:DeviceInfoCache.acquire", "cache", local=True)
+external("bacpypes.app:DeviceInfoCache.release", "cache", local=True)
+external("bacpypes.app:DeviceInfoCache.update_device_info", "cache", local=True)
 
 def due(delta):
     """ghost value of a timer armed `delta` seconds from now"""
